@@ -802,7 +802,27 @@ func (r *runningStep) State() step.RunningStepState {
 	r.lock.Lock()
 	defer r.lock.Unlock()
 	tempState := r.state
+	if tempState == step.RunningStepStateWaitingForInput && r.currentStageInputAvailable() {
+		// The input the step is waiting for has been provided already; it just has not picked it up yet.
+		// That is progress that is still to come, so the step must not be mistaken for a stuck one.
+		return step.RunningStepStateRunning
+	}
 	return tempState
+}
+
+// currentStageInputAvailable tells if the input of the current stage has been provided.
+// Note: The calling function must have the step mutex locked.
+func (r *runningStep) currentStageInputAvailable() bool {
+	switch r.currentStage {
+	case StageIDDeploy:
+		return r.deployInputAvailable
+	case StageIDEnabling:
+		return r.enabledInputAvailable
+	case StageIDStarting:
+		return r.runInputAvailable
+	default:
+		return false
+	}
 }
 
 func (r *runningStep) ProvideStageInput(stage string, input map[string]any) error {
